@@ -306,7 +306,7 @@ class DualVigilanceART(BaseART):
         if len(self.base_module.W) == 0:
             new_w = self.base_module.new_weight(x, self.base_module.params)
             self.base_module.add_weight(new_w)
-            self.map[0] = 0
+            self.map = {0: 0}
             return 0
         else:
             T_values, T_cache = zip(
